@@ -226,7 +226,7 @@ def main(argv=None):
     for r in results:
         for v in r.get("violations", []):
             rec = dict(property=prop_id, case=r["case"], fn=r["fn"], params=r["params"], label=v["label"],
-                       witness=v["witness"], extra=v.get("extra"))
+                       witness=v["witness"], extra=v.get("extra"), oracle=v.get("oracle"))
             sig = (r["case"], v["label"])
             if sig in seen_sig:
                 continue
